@@ -624,7 +624,7 @@ def to_coq(case, obs):
         ivars = '[%s]' % '; '.join('%d%%N' % X.NID[v] for v in obs['vars'] if v in X.NID)
         for c, o in zip(case['calls'], obs['obs']):
             _, _, arr = X.split_scope(c['scope'])
-            if o.get('err') == 'nonnumeric:Fraction' and 'frac' in _types_of(c['scope']):
+            if o.get('err', '').startswith('nonnumeric') and 'Fraction' in o['err'] and 'frac' in _types_of(c['scope']):
                 units.append('(CEval %s %s [])' % (X.to_coq(e), ivars))    # Fractions are rejected by type, explicitly
             elif arr:
                 units.append(_g_arr_case(e, c['scope'], o))
@@ -797,7 +797,7 @@ def _closed_floordiv(e):
     return any(s[0] == 'b' and s[1] == 'floordiv' and not X.fv(s) and not X.fvv(s) for s in X.subterms(e))
 
 
-def _classify_call(e, kinds, scope, path, route, o, exact_required, extra_types=()):
+def _classify_call(e, kinds, scope, path, route, o, exact_required, extra_types=(), symbolic=False):
     sc, vc, arr = X.split_scope(scope)
     types = _types_of(scope) | set(extra_types)
     if arr:
@@ -833,6 +833,8 @@ def _classify_call(e, kinds, scope, path, route, o, exact_required, extra_types=
         return 'exact-int-div'
     if 'err' in o and o['err'] != 'unbound' and 'ite' in kinds and X.eager_fails(e, sc, vc):
         return 'piecewise-eager'
+    if a['reversed_sum'] and o.get('err') == 'other:ValueError' and (path == 'symfull' or symbolic):
+        return 'sum-reversed-limits'
     if a['reversed_sum'] and ('val' in o or 'nan' in o):
         return 'sum-reversed-limits'
     return None
@@ -856,7 +858,7 @@ def classify(case, obs):
             if not X.capture_free(_subs_ast(case), case['expr']) and 'hang' not in o and 'crash' not in o:
                 return 'subst-capture'
             se, exact = _partial_view(case)
-            r = _classify_call(se, X.kinds(se), case['scope'], case['path'], case['route'], o, exact)
+            r = _classify_call(se, X.kinds(se), case['scope'], case['path'], case['route'], o, exact, symbolic=True)
             return None if r == 'ok' else r
         if k == 'vec':
             o = obs['obs']
